@@ -28,6 +28,25 @@ def stale_export(w, rng):
     w.resize = False
 
 
+def linked_inside(w, rng):
+    """The only correct copy of one file lies in a directory outside every scan directory that is reachable through a
+    symbolic link INSIDE a scan directory, and that link is itself given as a scan directory: the walk of the outer
+    directory skips the link, the link's own walk follows it (walkdir follows its root)."""
+    cands = [(t, f) for t in w.torrents for f in t.files if not f.pad and f.length > 0]
+    real = [s for s in w.scans if s and not s[-1].startswith(b"lnk")]
+    if not cands or not real:
+        return
+    t, f = rng.choice(cands)
+    w.remove_files(lambda rel, data: data == f.content)
+    w.put_dir((b"elsewhere",))
+    w.put_file((b"elsewhere", b"kept_" + (f.path[-1] if f.path else t.name)[:30]), f.content)
+    s = tuple(real[0])
+    lnk = s + (b"lnk_m",)
+    w.files[lnk] = ("symlink", b"../" * len(s) + b"elsewhere")
+    w.scans = list(w.scans) + [lnk]
+    w.resize = False
+
+
 def twin_files(w, rng):
     """A multi-file torrent with two files of the same length and content (a LICENSE shipped twice) that one piece
     touches, and a single copy of them on disk under another name - the same candidate file serves both segments."""
@@ -54,7 +73,7 @@ def twin_files(w, rng):
 
 correspondence, search, replay, ASSUMPTIONS = runbase.make(
     "C02", [oracles.c02],
-    [("std", 170, 1700, {}, None), ("empties", 80, 900, {"empties": True}, None), ("stale", 50, 400, {}, stale_export), ("twins", 24, 200, {}, twin_files)],
-    "(stream twins) two identical files of a torrent inside one piece with a single renamed copy on disk; generated worlds with 0-4 candidates per file and the correct one in every position, renamed/moved files, hard-linked duplicates, other torrents' export files as candidates, data that lives only inside the export directory outside every loaded torrent's export location (scan directory = export directory or above it), padding taken as zeros, empty files first/middle/last; availability computed from the initial snapshot by an independent oracle vs the export tree afterwards; every run replayed against the model",
+    [("std", 170, 1700, {}, None), ("empties", 80, 900, {"empties": True}, None), ("stale", 50, 400, {}, stale_export), ("twins", 24, 200, {}, twin_files), ("linkin", 24, 200, {}, linked_inside)],
+    "(stream linkin) the only copy of a file reachable through a symbolic link inside a scan directory that is itself a scan directory; (stream twins) two identical files of a torrent inside one piece with a single renamed copy on disk; generated worlds with 0-4 candidates per file and the correct one in every position, renamed/moved files, hard-linked duplicates, other torrents' export files as candidates, data that lives only inside the export directory outside every loaded torrent's export location (scan directory = export directory or above it), padding taken as zeros, empty files first/middle/last; availability computed from the initial snapshot by an independent oracle vs the export tree afterwards; every run replayed against the model",
     "the run is a behaviour of the model (index registration, ranking, pruning, exhaustive combination search, writer) - trace validation; completeness lemmas of the search on the model",
     ["hypotheses of the statement: no I/O fault during the run, witnesses stay in place (scan files are never written: C03; own export files only receive correct bytes: C01)"])
